@@ -142,6 +142,20 @@ CHECKS['C09'] = dict(
     ],
 )
 
+CHECKS['C10'] = dict(
+    level='exploration',
+    rule='(a) reduced Argon2d instances through the entry points cache initialisation uses (randomx_argon2_initialize, randomx_argon2_fill_memory_blocks, instance.impl in {ref, SSSE3, AVX2}): '
+         'password length 0..300 (incl. > 64 = multi-block initial hash), salt 8..32 bytes, m = 4k blocks for k in {2,3,4,8,16,64,512} or uniform 2..64, passes 1..4, lanes 1, version 0x13; '
+         '(b) full 256 MiB caches through randomx_alloc_cache/init_cache with the three Argon2 flags for generated keys; (c) re-key sequence K1 -> K2 -> K1 on one cache object. '
+         'Oracle: memory == independent RFC 9106 Argon2d fill (finalisation omitted), hence the three implementations are byte-identical and a re-keyed cache carries no trace of the previous key; '
+         'canary behind the reduced memory array. Non-trivial: every distinct (password, salt, m, t) / key',
+    assumptions=COMMON_ASSUME + ['model/ref_argon2.cpp is a correct reading of RFC 9106 (self-tested against the RFC Argon2d vector incl. secret, associated data, 4 lanes and finalisation)'],
+    stages=[
+        dict(name='argon', harness=H('c10', ['harness/c10_argon2.cpp'], model=True),
+             plan={'quick': 'reduced=1600,full=16', 'thorough': 'reduced=100000,full=192'}),
+    ],
+)
+
 C02_AUX = os.path.join(os.path.dirname(os.path.abspath(__file__)), 'build', 'run', 'c02-digests')
 
 
